@@ -23,11 +23,12 @@ def main():
     stored = os.path.join(VERIF, 'seeded', '%s-%s' % (prop, k))
     if not os.path.exists(diff) and os.path.exists(os.path.join(stored, 'patch.diff')):
         # re-validation of an already stored change
-        os.makedirs('/tmp/seedre', exist_ok=True)
-        diff, demo = '/tmp/seedre/change%s.diff' % k, '/tmp/seedre/demo%s.cpp' % k
+        re_dir = '/tmp/seedre_%s_%s' % (prop, k)
+        os.makedirs(re_dir, exist_ok=True)
+        diff, demo = re_dir + '/change%s.diff' % k, re_dir + '/demo%s.cpp' % k
         shutil.copy(os.path.join(stored, 'patch.diff'), diff); shutil.copy(os.path.join(stored, 'demo.cpp'), demo)
         old = json.load(open(os.path.join(stored, 'meta.json'))).get('what_it_needs', '')
-        meta = '/tmp/seedre/meta%s.txt' % k
+        meta = re_dir + '/meta%s.txt' % k
         open(meta, 'w').write(old)
     wt = '/tmp/sv_%s_%s' % (prop, k)
     sh('git -C /repo worktree remove --force %s' % wt)
